@@ -96,6 +96,19 @@ def collect(h):
     else:
         raise h.Missing(f"{rel}: cannot tell which argument fields validateObjectIDs checks")
     items.append(("c04_arg_plain_checked", "bool", plain_checked, rel))
+    # sendResponse: replies of the APIv2 paths are re-encoded through a generic map; are numbers kept exact (UseNumber)
+    # or do they go through float64?
+    rel = "pkg/processors/command/impl.go"
+    body = h.func_body(rel, r"^func sendResponse\(", "sendResponse")
+    if "pascalCasedResMap" not in body:
+        exact = "true"   # no re-encoding at all
+    elif "UseNumber()" in body:
+        exact = "true"
+    elif re.search(r"json\.Unmarshal\(\[\]byte\(res\), &pascalCasedResMap\)", body):
+        exact = "false"
+    else:
+        raise h.Missing(f"{rel}: cannot tell how sendResponse re-encodes the reply of the APIv2 paths")
+    items.append(("c04_apiv2_reply_exact", "bool", exact, rel))
     # appRecordsType.validEvent: a singleton create is refused whenever a record sits at the singleton's ID
     rel = "pkg/istructsmem/impl.go"
     body = h.func_body(rel, r"^func \(recs \*appRecordsType\) validEvent\(", "appRecordsType.validEvent")
